@@ -392,3 +392,36 @@ def rule_spelled_programs(ctx, rep):
             diffs = [(key, f"B{b}", got[key].get(b), v) for key in base for b, v in base[key].items() if got.get(key, {}).get(b) != v]
             rep.check(not diffs and sorted(lines0) == sorted(lines1), rule, f"{name} / {variant}", where, diffs[:4], [],
                       why="the spelling of an integer constant changes a block context", sample={"program": name, "variant": variant})
+
+
+LAYOUT_PAIRS = {
+    # (original, the same program with another layout / spelling of immediates on the lines that are not integer constants)
+    "address compared with a value from scratch space": (
+        "#pragma version 6\ntxn RekeyTo\nload 10\n==\nassert\ntxn CloseRemainderTo\nglobal CreatorAddress\n==\nassert\nint 1\nreturn\n",
+        "#pragma version 6\n   txn RekeyTo // the field\n\tload 0xa   // slot ten\n==\nassert\ntxn   CloseRemainderTo\n  global CreatorAddress // creator\n==\nassert\nint 1\nreturn\n"),
+    "address compared with another transaction's field and with application state": (
+        "#pragma version 6\ntxn Sender\ngtxn 1 Receiver\n==\nassert\ntxn AssetCloseTo\nbyte \"k\"\napp_global_get\n==\nbz no\nint 1\nreturn\nno:\nerr\n",
+        "#pragma version 6\ntxn Sender\n gtxn 01 Receiver // peer\n==\nassert\ntxn AssetCloseTo\nbyte \"k\" // key\n\tapp_global_get\n==\nbz no\nint 1\nreturn\nno:\nerr\n"),
+    "fee and group size compared with run-time values": (
+        "#pragma version 6\ntxn Fee\nload 1\n<=\nassert\nglobal GroupSize\nload 2\n==\nassert\nint 1\nreturn\n",
+        "#pragma version 6\ntxn Fee\nload 0x1 // max fee\n<=\nassert\nglobal GroupSize\n  load 02\n==\nassert\nint 1\nreturn\n"),
+}
+
+
+def rule_layout_pairs(ctx, rep):
+    rule = "T-REWRITE(pairs)"
+    rep.rule(rule, "pairs of programs that differ only in comments, whitespace and the spelling of immediates on lines other than integer "
+                   "constants (scratch slots, transaction indices): the four analyses give the same per-block contexts - the names the address "
+                   "analysis gives to run-time addresses included")
+    from .fixpoint import analyse
+    where = ctx.path("tealer.analyses.dataflow.transaction_context.addr_fields")
+    for name, (a_src, b_src) in LAYOUT_PAIRS.items():
+        try:
+            a, la = analyse(ctx, a_src, which=(("int_fields", None), ("addr_fields", None), ("fee_field", ["Fee"]), ("txn_types", None)))
+            b, lb = analyse(ctx, b_src, which=(("int_fields", None), ("addr_fields", None), ("fee_field", ["Fee"]), ("txn_types", None)))
+        except PyRaise as e:
+            rep.violation(rule, f"{name}: runs", where, f"RAISES {e.exc} {e.where}", "two analyses")
+            continue
+        diffs = [(key, f"B{blk}", a[key][blk], b[key].get(blk)) for key in a for blk in a[key] if a[key][blk] != b.get(key, {}).get(blk)]
+        rep.check(not diffs and sorted(la) == sorted(lb), rule, name, where, diffs[:3], [], why="a block context depends on how a line of the source is written",
+                  sample={"pair": name, "keys": sorted(a)})
